@@ -152,11 +152,15 @@ impl http_serve::Entity for REnt {
         })
     }
     fn add_headers(&self, h: &mut HeaderMap) {
-        for (k, v) in &self.headers {
-            h.insert(
-                HeaderName::from_bytes(k.as_bytes()).unwrap(),
-                HeaderValue::from_str(v).unwrap(),
-            );
+        // a name the entity lists more than once is a repeated header field (append)
+        for (i, (k, v)) in self.headers.iter().enumerate() {
+            let name = HeaderName::from_bytes(k.as_bytes()).unwrap();
+            let val = HeaderValue::from_str(v).unwrap();
+            if self.headers[..i].iter().any(|(k2, _)| k2.eq_ignore_ascii_case(k)) {
+                h.append(name, val);
+            } else {
+                h.insert(name, val);
+            }
         }
     }
     fn etag(&self) -> Option<HeaderValue> {
@@ -803,12 +807,17 @@ pub fn judge(s: &Scn, method: &str, o: &Obs) -> Vec<Value> {
 
     let (exp, if_range) = expectation(s, method);
     let want_ent_hdrs = |present: bool, v: &mut V, p: &str| {
-        for (k, val) in &s.ent_headers {
-            let got = get(&o.headers, k);
-            if present && got != Some(val.as_bytes()) {
-                v.add(p, format!("entity header {k} missing on {}", o.status));
+        for (i, (k, _)) in s.ent_headers.iter().enumerate() {
+            if s.ent_headers[..i].iter().any(|(k2, _)| k2.eq_ignore_ascii_case(k)) {
+                continue;
             }
-            if !present && got.is_some() {
+            // every value the entity supplies for this name, in order
+            let want: Vec<&[u8]> = s.ent_headers.iter().filter(|(k2, _)| k2.eq_ignore_ascii_case(k)).map(|(_, v)| v.as_bytes()).collect();
+            let got: Vec<&[u8]> = o.headers.iter().filter(|(k2, _)| k2.eq_ignore_ascii_case(k)).map(|(_, v)| &v[..]).collect();
+            if present && got != want {
+                v.add(p, format!("entity header {k}: {} of {} values carried on {}", got.len(), want.len(), o.status));
+            }
+            if !present && !got.is_empty() {
                 v.add(p, format!("entity header {k} present on {}", o.status));
             }
         }
